@@ -11,6 +11,10 @@
                     error and then yields the same tree; the semantic actions of parse.go (addOffset, setTimestamp,
                     newAggregateExpr, matrix_selector, number-literal sign folding …) are transliterated.
 
+  * `wf` / `norm`   the shapes `parse` can return (hypothesis of SH.Props.C28.parse_print; the driver evaluates it on every
+                    tree the model parser returns) and the tree it returns for printed text (`norm` keeps the matcher that
+                    repeats the metric name once, last).
+
   Abstract (lexical facts, checked by the correspondence only): a NUMBER token carries its raw text, the value the
   parser's `number` gives it (`val`, magnitude as text) and the `@` timestamp in ms for either sign; a STRING token
   carries its unquoted value (hex) and whether it unquotes / compiles as a regexp; a DURATION token carries its
@@ -474,7 +478,7 @@ def atOfKw (n : String) : Option AtMod :=
 
 /-- one postfix modifier: offset_expr, step_invariant_expr (`@`), matrix_selector -/
 def postfixStep (e : Expr) : List Tok → PStep
-  | .word (.kw n) t :: ts =>
+  | .word (.kw n) _ :: ts =>
     if n = "OFFSET" then
       match ts with
       | .dur (some d) :: ts' => stepOpt (addOffset e d) ts'
